@@ -309,6 +309,8 @@ def strip_kind(e):
 
 # ---- kind x mode matrix on the real implementation ------------------------------------------------------------------
 OPERANDS = [
+    ('_type_params', '**P, T'), ('_type_params', '*Ts, T, **P'), ('_type_params', 'T: int = str, *Ts'), ('arguments', 'a=1'), ('arguments', 'a, b=2'), ('arguments', '*, k=3'),
+    ('_arglikes', '*not a, *b or c, d'), ('expr_arglike', '*not a'), ('_arglikes', 'a, *b if c else d'), ('expr', '[*a, *(b or c)]'),
     # redundant parentheses inside operands of | chains (removed / kept by the conversion: what stands to their right moves)
     ('expr', '(-(3)) | {**r}'), ('expr', '-(3) | a.b'), ('expr', '-(3) - (2j) | x.y'), ('expr', '[(-(1)), e] | (f.g) | -(2)'), ('pattern', '(-3) | a | b'), ('pattern', '(a) | b | c'),
     ('pattern', '((a.b)) | c | [d]'), ('pattern', '(\n a) | b | c'), ('expr', '(a) | (b) | (c)'), ('expr', '(("s")) | (1) | (-(2.5))'), ('expr', '[-(1) + (2j), (-(3)), {**r}]'),
@@ -476,8 +478,11 @@ def stage_matrix(ctx: Ctx, progs):
         import unicodedata
         nfkc = unicodedata.normalize('NFKC', src) != src     # identifiers the parser normalises (ﬁ -> fi): their length in the tree differs from their length in the source
         report = (lambda sig, what, rec_: ctx.violation(sig + '|nfkc-identifier', what, rec_)) if nfkc else ctx.violation
-        for mode in MODES:
-            rec = {'source_mode': smode, 'src': src, 'target_mode': mode}
+        # operands with a starred element also under pars_arglike=None (defer to `pars`, whose default still asks for valid results)
+        optsets = [{}] + ([{'pars_arglike': None}] if '*' in src else [])
+        for mode, optset in [(m_, o_) for o_ in optsets for m_ in MODES]:
+            fst.FST.set_options(pars_arglike=optset.get('pars_arglike', True))
+            rec = {'source_mode': smode, 'src': src, 'target_mode': mode, **({'options': optset} if optset else {})}
             # (a) copy-mode coercion
             f = fst.FST(src, smode)
             before_src, before_dump = f.src, ast.dump(f.a, include_attributes=True)
@@ -489,7 +494,7 @@ def stage_matrix(ctx: Ctx, progs):
             except Exception as e:
                 report(f'coerce-crash|{type(base.a).__name__}->{mode}|{type(e).__name__}', 'coercion raised an unexpected kind of error', {**rec, 'error': repr(e)[:300]})
                 continue
-            ctx.tick((smode, src, mode), f'coerce:{mode}:' + ('ok' if r is not None else 'refuse'))
+            ctx.tick((smode, src, mode, repr(optset)), f'coerce:{mode}:' + ('ok' if r is not None else 'refuse'))
             if f.src != before_src or (f.a is not None and ast.dump(f.a, include_attributes=True) != before_dump) or f.a is None:
                 report(f'copy-coerce-touched-operand|{type(base.a).__name__}->{mode}', 'as_(mode, copy=True) changed the operand', {**rec, 'operand_after': f.src})
                 continue
@@ -522,13 +527,26 @@ def stage_matrix(ctx: Ctx, progs):
                 report(f'leaves-differ|{type(base.a).__name__}->{mode}', 'the coerced node does not contain the same names and constants', {**rec, 'result_src': r.src, 'operand': lb, 'result': lr})
                 continue
             # (d) already of that kind: unchanged
-            if type(r.a) is type(base.a) and already and (r.src != src or cmp_ast(r.a, base.a, positions=False)):
+            def _valid_as_is():
+                try:
+                    fst.FST(src, mode)
+                    return True
+                except Exception:
+                    return False        # e.g. `*not a`: a Starred, but as it stands only an argument - it has to get parentheses to be an expression
+            if type(r.a) is type(base.a) and already and (r.src != src or cmp_ast(r.a, base.a, positions=False)) and (cmp_ast(r.a, base.a, positions=False) or _valid_as_is()):
                 report(f'same-kind-changed|{type(base.a).__name__}->{mode}', 'a node that already has the requested kind was changed', {**rec, 'result_src': r.src})
                 continue
             # (e) formatted vs pure AST
             try:
                 from fst.astutil import copy_ast
-                ra = fst.FST(copy_ast(base.a), mode)
+                pure = copy_ast(base.a)
+                pure_before = ast.dump(pure)
+                try:
+                    ra = fst.FST(pure, mode)
+                finally:
+                    if ast.dump(pure) != pure_before:
+                        report(f'ast-operand-touched|{type(base.a).__name__}->{mode}', 'coercing a pure AST changed the AST that was passed in (it is documented as consumed only on success)' if False else
+                               'coercing a pure AST left the AST that was passed in with other content', {**rec, 'before': pure_before[:200], 'after': ast.dump(pure)[:200]})
                 d = cmp_ast(squash_multiline_strings(ra.a), squash_multiline_strings(r.a), positions=False, ctx=False)
                 if d:
                     report(f'fst-vs-ast|{type(base.a).__name__}->{mode}|{d[0].split(": ")[-1][:40]}', 'coercing the formatted node and coercing its pure AST give different structures',
@@ -547,6 +565,7 @@ def stage_matrix(ctx: Ctx, progs):
                     report(f'copy-vs-inplace|{type(base.a).__name__}->{mode}', 'copy-mode and in-place coercion differ', {**rec, 'copy': r.src, 'inplace': r2.src})
             except Exception as e:
                 report(f'copy-vs-inplace|{type(base.a).__name__}->{mode}', 'in-place coercion raised although copy-mode coercion succeeded', {**rec, 'error': repr(e)[:200]})
+    fst.FST.set_options(pars_arglike=True)
     ctx.extra['refusals'] = len(refusals)
     # (g) a put that coerces == a put of the explicitly converted node
     hosts = [('match x:\n    case 0: pass\n', lambda r: r.body[0].cases[0], 'pattern', 'pattern'), ('f(1)\n', lambda r: r.body[0].value, 'args', '_arglikes'),
